@@ -257,7 +257,7 @@ func runTimed(c *h.Ctx, r *h.Report) {
 	} {
 		runTimedCase(c, r, cs)
 	}
-	n := c.Scale(400, 20000)
+	n := c.Scale(1200, 20000)
 	for i := 0; i < n; i++ {
 		rr := c.Rand.Fork()
 		cs := timedCase{Horizon: 150000}
